@@ -173,6 +173,9 @@ def check(ctx):
         ctx.guard('R4', fsite(f), r4)
     ctx.count('callback::operator() instantiations', ncb, 3)
 
+    # the stop decision is a function of the checkpoint handed in (a resumed run has a new callback)
+    share(ctx, 'C12', 'R4/C12.', ['R3.decision_from_checkpoint_only', 'R3.all_results', 'R2.', 'R3.positive_target'])
+    share(ctx, 'C20', 'R4/C20.', ['R3.reporting_effects_only'])
     from . import C15, C18
     share(ctx, 'C15', 'R1/C15.', ['R1.generator_last', 'inv.add_appends'])
     share(ctx, 'C18', 'R4/C18.', ['R1.'])
